@@ -379,6 +379,14 @@ impl Drop for TaskState<'_> {
         // cancel it, since we're about to drop the stream anyway.
         self.cancel_inter_task_stream_read();
 
+        // This task is never polled again. Wakers may outlive it though (e.g.
+        // held by another task), so flag the task as already woken to ensure
+        // they never signal the inter-task stream, whose read end is closed
+        // once this state is dropped.
+        self.shared
+            .sleep_state
+            .store(SLEEP_STATE_WOKEN, Ordering::Relaxed);
+
         // If this state has active tasks then they need to be dropped which may
         // execute arbitrary code. This arbitrary code might require the p3 APIs
         // for managing waitables, notably around removing them. In this
